@@ -72,9 +72,9 @@ CASES = [
     # ---------------------------------------------------------------- C01
     ("C01", "retry_message", S, "async_producer.go", "retryMessage", "msg.retries >= p.conf.Producer.Retry.Max", "msg.retries > p.conf.Producer.Retry.Max", "comparison >= to >"),
     ("C01", "retry_message", S, "async_producer.go", "retryMessage", "\t\tmsg.retries++\n", "", "dropped increment"),
-    ("C01", "retry_message", S, "async_producer.go", "retryMessage", "\t\tp.returnError(msg, err)\n\t} else {\n\t\tmsg.retries++\n\t\tp.retries <- msg\n", "\t\tmsg.retries++\n\t\tp.retries <- msg\n\t} else {\n\t\tp.returnError(msg, err)\n", "swapped branches"),
-    ("C01", "retry_message", H, "async_producer.go", "retryMessage", "\tif msg.retries >= p.conf.Producer.Retry.Max {\n\t\tp.returnError(msg, err)\n\t} else {\n\t\tmsg.retries++\n\t\tp.retries <- msg\n\t}",
-     "\tif msg.retries < p.conf.Producer.Retry.Max {\n\t\tmsg.retries++\n\t\tp.retries <- msg\n\t} else {\n\t\tp.returnError(msg, err)\n\t}", "negated test with swapped branches"),
+    ("C01", "retry_message", S, "async_producer.go", "retryMessage", "\t\tp.returnError(msg, err)\n\t} else {\n\t\tmsg.retries++\n\t\tverifPoint(\"retry.enqueue\", msg, err, p)\n\t\tp.retries <- msg\n", "\t\tmsg.retries++\n\t\tverifPoint(\"retry.enqueue\", msg, err, p)\n\t\tp.retries <- msg\n\t} else {\n\t\tp.returnError(msg, err)\n", "swapped branches"),
+    ("C01", "retry_message", H, "async_producer.go", "retryMessage", "\tif msg.retries >= p.conf.Producer.Retry.Max {\n\t\tp.returnError(msg, err)\n\t} else {\n\t\tmsg.retries++\n\t\tverifPoint(\"retry.enqueue\", msg, err, p)\n\t\tp.retries <- msg\n\t}",
+     "\tif msg.retries < p.conf.Producer.Retry.Max {\n\t\tmsg.retries++\n\t\tverifPoint(\"retry.enqueue\", msg, err, p)\n\t\tp.retries <- msg\n\t} else {\n\t\tp.returnError(msg, err)\n\t}", "negated test with swapped branches"),
     # ---------------------------------------------------------------- C17
     ("C17", "manual_partition", S, "partitioner.go", "manualPartitioner) Partition", "return message.Partition, nil", "return message.Partition + 1, nil", "off by one"),
     ("C17", "manual_partition", S, "partitioner.go", "manualPartitioner) Partition", "return message.Partition, nil", "return numPartitions - 1, nil", "other value"),
